@@ -209,7 +209,7 @@ def add_env_faults(rng, b, files, vals):
                 s["io"] = [[rng.choice([0, 0, 1, 2, 3, 5, 8]), rng.choice([1, 1, 2, 3])]]
 
 
-def gen_history(rng, profile, faults=False, sweep=False, hostile=False):
+def gen_history(rng, profile, faults=False, sweep=False, hostile=False, reuse=False):
     """C12/C13/C14 histories share one shape; the flags pick the workload mix.
 
     faults  : inject environment faults (separate batch, oracle relaxed on the
@@ -223,6 +223,8 @@ def gen_history(rng, profile, faults=False, sweep=False, hostile=False):
     if profile != "C13":
         plan["knobs"]["leakcheck"] = 0
 
+    if reuse and rng.random() < 0.6:
+        return gen_reuse(rng, profile)
     use_dw = rng.random() < (0.55 if not hostile else 0.3)
     files = pick_files(rng, rng.choice([1, 1, 2])) if use_dw else []
 
@@ -436,4 +438,47 @@ def gen_history(rng, profile, faults=False, sweep=False, hostile=False):
             if len(seen) >= 3:
                 break
 
+    return b.merge()
+
+
+REUSE_PROGRAMS = ["entry ?root offset", "entry root offset", "entry parent offset", "entry ?(parent) root offset",
+                  "unit root offset", "entry !root parent ?root offset", "entry (|E| E root (== E)) offset",
+                  "[entry ?root] length", "entry child parent offset", "entry ?root name",
+                  "entry ?TAG_subprogram root offset", "unit entry ?root offset", "entry root ?root offset"]
+
+
+def gen_reuse(rng, profile):
+    """Address-reuse histories for the plain (non-ASan) build: open a file, use
+    it, release *everything* derived from it, open another file.  glibc hands
+    the freed Dwfl/Dwarf blocks out again at once, so anything keyed by their
+    addresses that outlives them (a cache made process-global, say) is hit by
+    a different file."""
+    b = Builder(rng, profile)
+    plan = b.plan
+    common_knobs(rng, plan, buggify=False)
+    plan["knobs"]["leakcheck"] = 0
+    nq = rng.choice([1, 2, 2, 3])
+    queries = []
+    for _ in range(nq):
+        if rng.random() < 0.7:
+            text = rng.choice(REUSE_PROGRAMS)
+        else:
+            text, _ = choose_program(rng, ["D"], True, bombs=False)
+        q = b.q()
+        p = b.prog(text, 0)
+        b.setup.append(P.step(0, "PARSE", q, p))
+        queries.append(q)
+    phases = rng.choice([2, 3, 3, 4, 5])
+    pool = pick_files(rng, 3) + [rng.choice(gen.DW_FILES)]
+    for ph in range(phases):
+        f = rng.choice(pool)
+        v = b.v()
+        i = b.i()
+        b.setup.append(P.step(0, "OPEN", v, P.hexenc("/sim/0/" + f), rng.choice(["cooked", "cooked", "raw"])))
+        b.setup.append(P.step(0, "MKIN", i, "V:%d" % v))
+        for q in rng.sample(queries, rng.randint(1, len(queries))):
+            st, _ = task_steps(b, 0, q, i, rng.choice([None, None, PULL_CAP, 3, 1]))
+            b.setup += st
+        b.setup.append(P.step(0, "DROPI", i))
+        b.setup.append(P.step(0, "DROPV", v))
     return b.merge()
